@@ -904,6 +904,7 @@ type Gen struct {
 	NoReopen bool
 	lowSpace bool
 	NoOverflow bool
+	maint    bool
 }
 
 func NewGen(r *Runner, rng *simsched.Rand, mix string) *Gen {
@@ -917,6 +918,7 @@ func NewGen(r *Runner, rng *simsched.Rand, mix string) *Gen {
 // StartTx resets the per transaction counters (used when the harness begins
 // the transaction itself).
 func (g *Gen) StartTx() {
+	g.maint = false
 	g.inTxOps = 0
 	g.txLen = 1 + g.Rng.Intn(2*g.M.OpsPerTx)
 }
@@ -936,6 +938,12 @@ func (g *Gen) Next() Op {
 		}
 		g.inTxOps = 0
 		g.txLen = 1 + rng.Intn(2*g.M.OpsPerTx)
+		// maintenance transactions: no page is accessed at all (checkpoint only,
+		// root change only, or an empty commit)
+		g.maint = rng.Intn(12) == 0
+		if g.maint {
+			g.txLen = rng.Intn(3)
+		}
 		a := 0
 		if r.Cfg.MaxSize > 0 && rng.Intn(10) == 0 && !g.NoOverflow {
 			a = 1
@@ -945,6 +953,12 @@ func (g *Gen) Next() Op {
 	g.inTxOps++
 	if g.inTxOps > g.txLen || r.txDirtyUnknown {
 		return g.end()
+	}
+	if g.maint {
+		if rng.Intn(2) == 0 {
+			return Op{K: "checkpoint"}
+		}
+		return Op{K: "setroot", A: rng.Intn(1 << 20)}
 	}
 	if r.txOOM || g.lowSpace {
 		// file (nearly) full: mostly free pages so that later transactions make progress
